@@ -113,7 +113,8 @@ func H_C16_docx_package() {
 const vNumberingXML = `<?xml version="1.0" encoding="UTF-8" standalone="yes"?><w:numbering ` + vWNS + `>` +
 	`<w:abstractNum w:abstractNumId="0"><w:lvl w:ilvl="0"><w:start w:val="1"/><w:numFmt w:val="decimal"/><w:lvlText w:val="%1."/></w:lvl><w:lvl w:ilvl="1"><w:start w:val="1"/><w:numFmt w:val="lowerLetter"/><w:lvlText w:val="%2)"/></w:lvl></w:abstractNum>` +
 	`<w:abstractNum w:abstractNumId="1"><w:lvl w:ilvl="0"><w:start w:val="1"/><w:numFmt w:val="bullet"/><w:lvlText w:val="&#8226;"/></w:lvl><w:lvl w:ilvl="1"><w:start w:val="1"/><w:numFmt w:val="bullet"/><w:lvlText w:val="o"/></w:lvl></w:abstractNum>` +
-	`<w:num w:numId="1"><w:abstractNumId w:val="0"/></w:num><w:num w:numId="2"><w:abstractNumId w:val="1"/></w:num></w:numbering>`
+	`<w:abstractNum w:abstractNumId="2"><w:lvl w:ilvl="0"><w:start w:val="1"/><w:numFmt w:val="decimalZero"/><w:lvlText w:val="%1."/></w:lvl><w:lvl w:ilvl="1"><w:start w:val="1"/><w:numFmt w:val="ordinal"/><w:lvlText w:val="%2"/></w:lvl></w:abstractNum>` +
+	`<w:num w:numId="1"><w:abstractNumId w:val="0"/></w:num><w:num w:numId="2"><w:abstractNumId w:val="1"/></w:num><w:num w:numId="3"><w:abstractNumId w:val="2"/></w:num></w:numbering>`
 
 // H_C15_docx_package_markdown: the Markdown of a whole DOCX package keeps structure: headings as ATX headings of the
 // source level (capped at 6), list items in order with their nesting depth and ordered/unordered kind, tables as pipe
@@ -121,7 +122,7 @@ const vNumberingXML = `<?xml version="1.0" encoding="UTF-8" standalone="yes"?><w
 //
 //symgo:harness prop=C15 kernel=K3-docx-package-markdown noreplay=1
 //symgo:redirect archive/zip.OpenReader vStubOpenZip
-//symgo:desc zip layer cut (member content model); parts: document.xml, styles.xml (Heading1, Heading2, custom style on Heading2), numbering.xml (numId 1 decimal / lower-letter, numId 2 bullets); body = 2 quick / 2..3 thorough elements out of: heading by style (level 1 or 2), heading by outlineLvl 6 (level 7, to be capped at 6), plain paragraph, a three-item list (ordered or bulleted, enumerated) whose middle item is nested one level deeper, a 2x2 table with a pipe in one cell (enumerated): Markdown(): every body text occurs exactly once, in source order; a heading line is '#' x min(level,6) + text; list lines are "<number>. " (ordered; the number itself is not checked) or "- " (bulleted) with two spaces of indentation per level, in order; the table is one pipe table read back by the reference GFM reader with its cell texts
+//symgo:desc zip layer cut (member content model); parts: document.xml, styles.xml (Heading1, Heading2, custom style on Heading2), numbering.xml (numId 1 decimal / lower-letter, numId 2 bullets, numId 3 decimalZero / ordinal); body = 2 quick / 2..3 thorough elements out of: heading by style (level 1 or 2), heading by outlineLvl 6 (level 7, to be capped at 6), plain paragraph, a three-item list (numId 1, 2 or 3, enumerated) whose middle item is nested one level deeper, a 2x2 table with a pipe in one cell (enumerated): Markdown(): every body text occurs exactly once, in source order; a heading line is '#' x min(level,6) + text; list lines are "<number>. " (ordered; the number itself is not checked) or "- " (bulleted) with two spaces of indentation per level, in order; the table is one pipe table read back by the reference GFM reader with its cell texts
 func H_C15_docx_package_markdown() {
 	n := vAnyIntIn(2, 2+vTier())
 	type exp struct {
@@ -147,8 +148,11 @@ func H_C15_docx_package_markdown() {
 			want = append(want, exp{"p", w, 0})
 		case 3, 4:
 			numID, kind := "1", "ol"
-			if vAnyIntIn(0, 1) == 1 {
+			switch vAnyIntIn(0, 2) {
+			case 1:
 				numID, kind = "2", "ul"
+			case 2:
+				numID, kind = "3", "ol" // number formats other than the five common ones (decimalZero, ordinal) are still numbers
 			}
 			for k, lv := range []int{0, 1, 0} {
 				body += `<w:p><w:pPr><w:numPr><w:ilvl w:val="` + string(rune('0'+lv)) + `"/><w:numId w:val="` + numID + `"/></w:numPr></w:pPr>` + run(w+string(rune('0'+k))) + `</w:p>`
